@@ -423,8 +423,8 @@ def run_parts(ctx, parts, need_build=True, hooks=True):
         ctx.cov["repo_build_s"] = round(build.wall, 1)
     theorems, targets, srcs = [], [], []
     for p in parts:
-        if hasattr(p, "prepare"):          # translator parts: regenerate Gen/*.lean from the tree
-            p.prepare(build.src if build else SRC)
+        if hasattr(p, "prepare_src"):      # translator parts: regenerate Gen/*.lean from the tree
+            p.prepare_src(build.src if build else SRC)
         theorems += p.THEOREMS; targets += p.BUILD_TARGETS; srcs += p.SOURCES
         ctx.trusted.append("modelled (%s): %s" % (p.NAME, p.MODELLED))
     proved = ctx.prove(targets, theorems)
